@@ -78,6 +78,7 @@ pub const POOL: &[QueryShape] = &[
     QueryShape { text: "(return_statement (identifier)? @id)", caps: &[c("id", "?", &["identifier"])], root_kinds: &["return_statement"], total: false, exec_safe: true },
     QueryShape { text: "(call function: (identifier) @args)", caps: &[c("args", "", &["identifier"])], root_kinds: &["call"], total: false, exec_safe: true },
     QueryShape { text: "(class_definition body: (block (_)* @body))", caps: &[c("body", "*", &[])], root_kinds: &["class_definition"], total: false, exec_safe: true },
+    QueryShape { text: "((string) @s (#not-eq? @s \"\\\\\"))", caps: &[c("s", "", &["string"])], root_kinds: &["string"], total: false, exec_safe: true },
     QueryShape { text: "(for_statement left: (_) @var right: (_)? @iter)", caps: &[c("var", "", &[]), c("iter", "?", &[])], root_kinds: &["for_statement"], total: true, exec_safe: true },
     QueryShape { text: "(binary_operator operator: \"+\" @op) @bin", caps: &[c("op", "", &[]), c("bin", "", &["binary_operator"])], root_kinds: &["binary_operator"], total: false, exec_safe: true },
     QueryShape { text: "(module (expression_statement) @_first (expression_statement) @second)", caps: &[c("_first", "", &["expression_statement"]), c("second", "", &["expression_statement"])], root_kinds: &["module"], total: false, exec_safe: true },
